@@ -23,7 +23,10 @@ tvars == <<vars, tid, l, equiv>>
 
 Ev == Traces[tid].ev
 Cfg == Traces[tid].cfg
-Clause(name, e) == IF e THEN TRUE ELSE PrintT(<<"FAIL", Traces[tid].tid, l, name>>) /\ FALSE
+(* clauses that belong to a sibling property of the same engine are not evaluated by this check (they would
+   otherwise mask a later clause of this property on the same trace); the sibling check evaluates them *)
+CONSTANT SkipClauses
+Clause(name, e) == IF name \in SkipClauses \/ e THEN TRUE ELSE PrintT(<<"FAIL", Traces[tid].tid, l, name>>) /\ FALSE
 IsOp(o) == l <= Len(Ev) /\ Ev[l].op = o /\ l' = l + 1 /\ UNCHANGED <<tid, vars>>
 
 TraceInit == /\ tid \in 1..Len(Traces) /\ l = 1 /\ equiv = <<>>
